@@ -15,6 +15,23 @@
 
 using namespace vf;
 
+// ---- "time and memory proportional to the input size": live heap bytes above the level at the start of the case (ASan malloc/free
+// hooks) and CPU time of each load call. Bounds are linear in the input size with constants far above anything the unchanged code
+// needs (measured maxima are reported in the evidence as max_*), so they catch costs that do not depend on the amount of input.
+extern "C" int __sanitizer_install_malloc_and_free_hooks(void (*malloc_hook)(const volatile void *, size_t), void (*free_hook)(const volatile void *));
+extern "C" size_t __sanitizer_get_allocated_size(const volatile void *p);
+struct HeapMeter {
+    static long long &live() { static long long v = 0; return v; }
+    static long long &peak() { static long long v = 0; return v; }
+    static void on_malloc(const volatile void *, size_t n) { live() += (long long)n; if(live() > peak()) peak() = live(); }
+    static void on_free(const volatile void *p) { if(p) live() -= (long long)__sanitizer_get_allocated_size(p); }
+    static void install() { static bool done = false; if(!done) { done = true; __sanitizer_install_malloc_and_free_hooks(on_malloc, on_free); } }
+    static void start() { install(); live() = 0; peak() = 0; }
+};
+static double thread_cpu() { struct timespec ts; clock_gettime(CLOCK_THREAD_CPUTIME_ID, &ts); return (double)ts.tv_sec + 1e-9 * (double)ts.tv_nsec; }
+static const long long MEM_BASE = 64ll << 20, MEM_PER_BYTE = 128ll << 10;   // live bytes allowed: 64 MiB + 128 KiB per input byte
+static const double CPU_BASE = 5.0, CPU_PER_BYTE = 2e-3;                      // CPU seconds allowed per load call: 5 s + 2 ms per input byte
+
 struct FOp { int kind = 0; int a = 0, b = 0; };
 struct Case { std::string file; int song_before = -1000, loop = 0, loop_count = -1, tempo_sel = 0; std::vector<FOp> ops; };
 enum { K_TICK, K_PLAY, K_SEEK, K_REWIND, K_QUERY, K_SELECT, K_TRACKOPT, K_CHANEN, K_META, K_TITLE, K_MARKER, K_DESCRIBE, K_REOPEN, K_REOPEN_TRUNC, K_VOLMODEL, K_NK };
@@ -33,7 +50,7 @@ static Case deser(const std::string &s) {
     return c;
 }
 
-struct Info { bool loaded = false, past_detection = false; int ops_run = 0; std::string format; };
+struct Info { bool loaded = false, past_detection = false; int ops_run = 0; std::string format; long long peak_live = 0; double load_cpu = 0; };
 
 static const std::string &good_smf() { static std::string g = tiny_smf(0, 60, 3); return g; }
 
@@ -42,6 +59,7 @@ static void run(const Case &c, Info &info) {
     Inst I(8000); VCHECK(I.dev, "init failed");
     OPN2_MIDIPlayer *d = I.dev;
     opn2_switchEmulator(d, EMU_NP2); opn2_setNumChips(d, 1); install_default_banks(d, 200, 20);
+    HeapMeter::start();
     if(c.song_before > -1000) opn2_selectSongNum(d, c.song_before);
     opn2_setLoopEnabled(d, c.loop); opn2_setLoopCount(d, c.loop_count);
     static const double tempos[] = {1.0, 0.25, 4.0, 100.0};
@@ -49,7 +67,11 @@ static void run(const Case &c, Info &info) {
     auto load = [&](const std::string &bytes) {
         // exact-size heap copy so that a read past the block is visible
         std::vector<uint8_t> exact(bytes.begin(), bytes.end());
+        double t0 = thread_cpu();
         int r = opn2_openData(d, exact.empty() ? (const void *)"" : (const void *)exact.data(), (unsigned long)exact.size());
+        double dt = thread_cpu() - t0; if(dt > info.load_cpu) info.load_cpu = dt;
+        VCHECK(dt <= CPU_BASE + CPU_PER_BYTE * (double)bytes.size(), "loading %zu bytes took %.2f s of CPU time (allowed: %.1f s + %.0f ms per byte)", bytes.size(), dt, CPU_BASE, CPU_PER_BYTE * 1e3);
+        VCHECK(HeapMeter::peak() <= MEM_BASE + MEM_PER_BYTE * (long long)std::max(bytes.size(), c.file.size()), "loading %zu bytes (case file: %zu bytes) raised the live heap by %lld bytes (allowed: 64 MiB + 128 KiB per byte)", bytes.size(), c.file.size(), HeapMeter::peak());
         VCHECK(r == 0 || r == -1, "openData returned %d", r);
         if(r != 0) VCHECK(opn2_errorInfo(d)[0] != 0, "a rejected file left no error text");
         return r;
@@ -78,7 +100,9 @@ static void run(const Case &c, Info &info) {
         case K_REOPEN_TRUNC: load(c.file.substr(0, c.file.size() * (size_t)(1 + p.a % 7) / 8)); break;
         }
         info.ops_run++;
+        VCHECK(HeapMeter::peak() <= MEM_BASE + MEM_PER_BYTE * (long long)c.file.size(), "after '%s' on a %zu-byte file the live heap had grown by %lld bytes (allowed: 64 MiB + 128 KiB per byte)", kn[p.kind], c.file.size(), HeapMeter::peak());
     }
+    info.peak_live = HeapMeter::peak();
     // after anything at all, a known-good file loads and plays
     opn2_selectSongNum(d, 0);
     VCHECK(load(good_smf()) == 0, "a known-good SMF is rejected after the hostile file: %s", opn2_errorInfo(d));
@@ -95,6 +119,9 @@ static void account(const Case &c, const Info &info, uint64_t h) {
     const char *m = "other"; const std::string &f = c.file;
     if(f.size() >= 4) { if(!memcmp(f.data(), "MThd", 4)) m = "SMF"; else if(!memcmp(f.data(), "RIFF", 4)) m = "RMI"; else if(!memcmp(f.data(), "GMF\1", 4)) m = "GMF"; else if(!memcmp(f.data(), "MUS\x1a", 4)) m = "MUS"; else if(!memcmp(f.data(), "FORM", 4)) m = "XMI"; else if(!memcmp(f.data(), "CTMF", 4)) m = "CMF"; }
     st.label(std::string("magic:") + m);
+    double &mp = st.numbers["max_peak_live_heap_bytes"]; if((double)info.peak_live > mp) mp = (double)info.peak_live;
+    double &mr = st.numbers["max_peak_live_heap_bytes_per_input_byte"]; if(!c.file.empty() && (double)info.peak_live / (double)c.file.size() > mr) mr = (double)info.peak_live / (double)c.file.size();
+    double &mc = st.numbers["max_load_cpu_seconds"]; if(info.load_cpu > mc) mc = info.load_cpu;
 }
 
 #ifdef VERIF_FUZZ
